@@ -64,6 +64,14 @@ pub struct Obs {
     pub symtab: SymbolTable,
     pub lists: ListTree,
     pub files: SynFile,
+    /// side table of constant values (public field of `Context`)
+    pub const_values: hashbrown::HashMap<oq3_semantics::symbols::SymbolId, oq3_semantics::asg::TExpr>,
+    /// annotations still pending at the end of the analysis (public field of `Context`)
+    pub pending_annotations: usize,
+    /// print mode only: outcome of `print_errors()` (the consumer of the spans) and the seam
+    /// calls it made (it reads the files again)
+    pub print_outcome: Option<Result<(), String>>,
+    pub print_calls: Vec<Call>,
 }
 
 #[derive(Clone, Debug)]
@@ -146,7 +154,32 @@ fn syn_tree<T: SourceTrait>(s: &T, include_error: Option<String>) -> SynFile {
     }
 }
 
-fn observe<T: SourceTrait>(r: &s2s::ParseResult<T>) -> Obs {
+fn observe<T: SourceTrait>(
+    r: s2s::ParseResult<T>,
+    print: Option<&dyn Fn(&s2s::ParseResult<T>)>,
+    sim: &Sim,
+) -> Obs {
+    let mut o = observe_ref(&r);
+    if let Some(print) = print {
+        let before = sim.0.borrow().history.len();
+        sim.0.borrow_mut().budget += 256;
+        let res = catch_unwind(AssertUnwindSafe(|| print(&r)));
+        o.print_outcome = Some(res.map_err(|p| {
+            if p.downcast_ref::<BudgetExceeded>().is_some() {
+                "seam-call budget exhausted while printing".to_string()
+            } else {
+                panic_message(p.as_ref())
+            }
+        }));
+        o.print_calls = sim.0.borrow_mut().history.split_off(before);
+    }
+    let ctx = r.take_context();
+    o.pending_annotations = ctx.annotations.len();
+    o.const_values = ctx.const_values;
+    o
+}
+
+fn observe_ref<T: SourceTrait>(r: &s2s::ParseResult<T>) -> Obs {
     Obs {
         any_syntax: r.any_syntax_errors(),
         any_semantic: r.any_semantic_errors(),
@@ -157,6 +190,10 @@ fn observe<T: SourceTrait>(r: &s2s::ParseResult<T>) -> Obs {
         symtab: r.symbol_table().clone(),
         lists: list_tree(r.semantic_errors()),
         files: syn_tree(r.syntax_result(), None),
+        const_values: Default::default(),
+        pending_annotations: 0,
+        print_outcome: None,
+        print_calls: vec![],
     }
 }
 
@@ -172,6 +209,12 @@ pub fn panic_message(p: &(dyn std::any::Any + Send)) -> String {
 
 /// Call the entry point of `w` with the simulator installed. Never unwinds.
 pub fn run_world(w: &World) -> Run {
+    run_world_opts(w, false)
+}
+
+/// `print`: after the analysis also call `print_errors()` (writes the rendered diagnostics to the
+/// real stdout; the caller is expected to have redirected it).
+pub fn run_world_opts(w: &World, print: bool) -> Run {
     let sim = Rc::new(Sim(RefCell::new(SimState::from_world(w))));
     let guard = install(sim.clone());
     let res = catch_unwind(AssertUnwindSafe(|| {
@@ -181,13 +224,29 @@ pub fn run_world(w: &World) -> Run {
             .map(|l| l.iter().map(PathBuf::from).collect());
         match &w.entry {
             Entry::StringSearch { text } => {
-                observe(&s2s::parse_source_string_with_path_search(text, None, dirs.as_deref()))
+                let p = |r: &s2s::ParseResult<oq3_source_file::SourceString>| r.print_errors();
+                observe(
+                    s2s::parse_source_string_with_path_search(text, None, dirs.as_deref()),
+                    if print { Some(&p) } else { None },
+                    &sim,
+                )
             }
-            Entry::StringPlain { text } => observe(&s2s::parse_source_string(text, None)),
+            Entry::StringPlain { text } => {
+                let p = |r: &s2s::ParseResult<oq3_source_file::SourceString>| r.print_errors();
+                observe(s2s::parse_source_string(text, None), if print { Some(&p) } else { None }, &sim)
+            }
             Entry::FileSearch { path } => {
-                observe(&s2s::parse_source_file_with_search(path, dirs.as_deref()))
+                let p = |r: &s2s::ParseResult<SourceFile>| r.print_errors();
+                observe(
+                    s2s::parse_source_file_with_search(path, dirs.as_deref()),
+                    if print { Some(&p) } else { None },
+                    &sim,
+                )
             }
-            Entry::FilePlain { path } => observe(&s2s::parse_source_file(path)),
+            Entry::FilePlain { path } => {
+                let p = |r: &s2s::ParseResult<SourceFile>| r.print_errors();
+                observe(s2s::parse_source_file(path), if print { Some(&p) } else { None }, &sim)
+            }
         }
     }));
     drop(guard);
